@@ -19,12 +19,12 @@ import (
 
 // Issue is a disagreement (model vs implementation) or a violation (implementation vs property).
 type Issue struct {
-	Kind     string   `json:"kind"`      // "disagreement" | "violation"
-	Property string   `json:"property"`  // Cxx this issue bears on ("" = all properties of the area)
-	Sig      string   `json:"sig"`       // finding signature (e.g. F-ldiff-width) or ""
-	Stream   string   `json:"stream"`    // correspondence stream / oracle name
+	Kind     string   `json:"kind"`     // "disagreement" | "violation"
+	Property string   `json:"property"` // Cxx this issue bears on ("" = all properties of the area)
+	Sig      string   `json:"sig"`      // finding signature (e.g. F-ldiff-width) or ""
+	Stream   string   `json:"stream"`   // correspondence stream / oracle name
 	Desc     string   `json:"desc"`
-	Ops      []string `json:"ops"`       // the input / operation sequence (line protocol)
+	Ops      []string `json:"ops"` // the input / operation sequence (line protocol)
 	Model    string   `json:"model,omitempty"`
 	Impl     string   `json:"impl,omitempty"`
 	Replay   string   `json:"replay,omitempty"`
@@ -175,11 +175,13 @@ func (r *Run) Sample(v any) {
 	}
 }
 
-func (r *Run) Count(key string)          { r.Res.Counters[key]++ }
-func (r *Run) CountN(key string, n int)  { r.Res.Counters[key] += n }
-func (r *Run) SetRule(rule string)       { r.Res.Rule = rule }
-func (r *Run) SetExhaustive(b bool)      { r.Res.Exhaustive = b }
-func (r *Run) Note(format string, a ...any) { r.Res.Notes = append(r.Res.Notes, fmt.Sprintf(format, a...)) }
+func (r *Run) Count(key string)         { r.Res.Counters[key]++ }
+func (r *Run) CountN(key string, n int) { r.Res.Counters[key] += n }
+func (r *Run) SetRule(rule string)      { r.Res.Rule = rule }
+func (r *Run) SetExhaustive(b bool)     { r.Res.Exhaustive = b }
+func (r *Run) Note(format string, a ...any) {
+	r.Res.Notes = append(r.Res.Notes, fmt.Sprintf(format, a...))
+}
 
 func (r *Run) addIssue(is Issue) {
 	if len(r.Res.Issues) >= r.maxIssue {
